@@ -1,0 +1,21 @@
+//go:build verif
+
+package txcache
+
+import "sync/atomic"
+
+// Hooks for the verification harness (build tag "verif"). They change no behaviour unless set.
+
+var verifPauseHook atomic.Value // func(point string)
+
+// VerifSetPauseHook installs a function called at the named pause points of TxCache.
+func VerifSetPauseHook(h func(point string)) {
+	verifPauseHook.Store(h)
+}
+
+func verifPause(point string) {
+	h, _ := verifPauseHook.Load().(func(point string))
+	if h != nil {
+		h(point)
+	}
+}
